@@ -139,7 +139,46 @@ Proof.
       { apply is_any_true_iff. exists id. split; [apply Hex; reflexivity|left; reflexivity]. }
       rewrite X. reflexivity.
     + eexists; split; [reflexivity|]. split; [discriminate|]. intros _. rewrite is_cons, Z.eqb_refl. reflexivity.
+  - (* PanicWrap t: whatever sentinel the panic value is or wraps, the panic arm comes first *)
+    assert (X : is (t :: ((if tagged then [id] else []) ++ [id_panic])) id_panic = true).
+    { rewrite is_cons, is_app. apply orb_true_iff. right. apply orb_true_iff. right. reflexivity. }
+    split.
+    + unfold can_continue. rewrite X. destruct (continue_on_panic c); reflexivity.
+    + eexists; split; [reflexivity|]. split; [intros _; exact X|]. destruct tagged; [|discriminate]. intros _.
+      simpl app. rewrite !is_cons, Z.eqb_refl. simpl. apply orb_true_r.
+  - (* RetMarked *)
+    split.
+    + unfold can_continue. rewrite !is_cons. simpl. destruct (continue_on_panic c); reflexivity.
+    + eexists; split; [reflexivity|]. split; intros _; rewrite !is_cons; [reflexivity|].
+      rewrite Z.eqb_refl. apply orb_true_r.
 Qed.
+
+(* Panics are always recorded and governed by ContinueOnPanic, WHATEVER ELSE their value matches:
+   for every configuration and every error profile that contains ErrRecoveredPanic (any subset of
+   io.EOF / ErrIteratorSkip / ErrCurrentOpAbort / context errors / user and excluded sentinels
+   besides it). *)
+Theorem panic_always_recorded (c : conf) (e : err) :
+  is e id_panic = true ->
+  can_continue c (Some e) = mkdec true (continue_on_panic c).
+Proof.
+  intros H. unfold can_continue. rewrite H. destruct (continue_on_panic c); reflexivity.
+Qed.
+
+(* ... in particular for every value a user function can panic with, except the []error finding *)
+Theorem recovered_panic_always_recorded (c : conf) (v : panicval) :
+  match v with
+  | PVErrSlice _ => True
+  | _ => can_continue c (with_recover (OPanic v)) = mkdec true (continue_on_panic c)
+  end.
+Proof.
+  destruct v; auto; simpl with_recover; simpl parse_panic; simpl join; apply panic_always_recorded;
+    rewrite ?is_app; simpl; rewrite ?orb_true_r; reflexivity.
+Qed.
+
+Example panic_eof_recorded : classify (mkconf false true false []) (PanicWrap id_eof) 5 false = mkdec true true.
+Proof. reflexivity. Qed.
+Example panic_ctx_recorded : classify (mkconf true false false [5]) (PanicWrap id_canceled) 5 true = mkdec true false.
+Proof. reflexivity. Qed.
 
 (* The unguarded statement is false: a panic whose value is []error is parsed without
    ErrRecoveredPanic (ers.ParsePanic; pinned by TestPanics/ParsePanic/ErrorSlice) and is therefore
